@@ -366,11 +366,20 @@ namespace occa {
         identifierNode var(source, name);
         primitiveNode idx(source, index);
         subscriptNode access(source, var, idx);
+        // A loop that is empty for its run-time bounds can have a negative trip count
+        // (for (o = 8; o < n; o += 4) with n = 0): stored in the unsigned occa::dim it would
+        // become a gigantic launch instead of the no-op that kernel::run skips.
+        //   dim[index] = ((count) > 0) ? (count) : 0
+        primitiveNode zero(source, 0);
+        parenthesesNode count(source, *value);
+        binaryOpNode isPositive(source, op::greaterThan, count, zero);
+        parenthesesNode check(source, isPositive);
+        ternaryOpNode clamped(check, count, zero);
         exprNode &assign = (
           *(new binaryOpNode(source,
                              op::assign,
                              access,
-                             *value))
+                             clamped))
         );
         delete value;
         return assign;
